@@ -448,6 +448,14 @@ func genC18(r *Rand, tier string, i int) *h.Scenario {
 	if tier == "thorough" {
 		p.MaxBars = 8
 	}
+	if r.Bool(0.1) {
+		sc := genAnonPipeline(r, "C18")
+		sc.Cont.Pop = true
+		for b := range sc.Bars {
+			sc.Bars[b].RmOnComp = false
+		}
+		return sc
+	}
 	return GenBase(r, &p)
 }
 
@@ -473,6 +481,9 @@ func judgeC18(hi *Hist) []*Violation {
 	facts := Facts(hi)
 	if v := screenCheck(hi, frames, facts, "C18"); v != nil {
 		return []*Violation{v}
+	}
+	if hi.Sc.Cont.Anon {
+		return nil // anonymous bars: rows cannot be told apart, the screen equation is all there is
 	}
 	var out []*Violation
 	add := func(o, f string, a ...interface{}) {
